@@ -85,6 +85,15 @@ def make_probes(rng, picks, malformed=None, avoid=None):
                 payload = [rng.choice(b"abc xyz\n0123456789:=%") for _ in range(size)]
             else:
                 payload = [rng.getrandbits(8) for _ in range(size)]
+            if rng.random() < 0.35 and 1 <= length <= size:
+                # binary / NUL-terminated content: NUL bytes inside the valid bytes and at their end
+                for q in range(rng.choice([1, 1, 2, 3])):
+                    if length - 1 - q >= 0:
+                        payload[length - 1 - q] = 0
+                if length >= 3 and rng.random() < 0.5:
+                    payload[rng.randrange(length)] = 0
+                if rng.random() < 0.3:
+                    payload[0] = 0
             blocks.append(dict(addr=addr, time=rng.getrandbits(32), ms=rng.getrandbits(32), length=length,
                                payload=payload))
         probes.append(dict(chip=list(xy), p=p, vcpu_base=ctx["vcpu_base"], iobuf_size=size,
@@ -282,7 +291,7 @@ def gen_case(rng, idx, tier):
             vtext = [ord("0")] * rng.randint(1, 2) + vtext           # leading zeros in the major number
     sver = dict(buffer_size=rng.choice([256, 256, 256, 128, 100, 64, 255, 511]), encoding=enc, name=name,
                 version=ver, labels=labels, vtext=vtext, build_date=rng.choice([0, 1459253424, 0xffffffff]),
-                pcpu=rng.getrandbits(8))
+                pcpu=rng.getrandbits(8), nuls=rng.choice([1, 1, 0, 0, 2, 5]))
     if malformed == "badsver":
         sver["encoding"] = "semver"
         sver["vtext"] = list(rng.choice([b"", b"1.2", b"1.2.", b"a.b.c", b"1..2", b"1.2.3\n4", b".1.2.3", b"v1.2.3",
@@ -809,6 +818,11 @@ def process_batch(chk, sim, cases, state, built):
         chk.count("kind:" + c["kind"])
         chk.count("size:%s" % ("sliver" if c.get("sliver") else "%dx%d" % (min(c["dims"][0], 12) // 4 * 4, min(c["dims"][1], 12) // 4 * 4)))
         chk.count("sver:" + c["sver"]["encoding"])
+        chk.count("sver-trailing-nuls:%s" % min(c["sver"].get("nuls", 1), 2))
+        for pr in c["probes"]:
+            for bi, b in enumerate(pr["iobuf"]):
+                if 0 < b["length"] <= len(b["payload"]) and b["payload"][b["length"] - 1] == 0:
+                    chk.count("iobuf-block-ending-in-nul:%s" % ("last" if bi == len(pr["iobuf"]) - 1 else "first" if bi == 0 else "middle"))
         chk.count("iobuf-blocks:%d" % max([len(p["iobuf"]) for p in c["probes"]] + [0]))
         for x, y, cs in c["chips"]:
             chk.count("answer:" + (cs["answer"] if isinstance(cs["answer"], str) else cs["answer"][0]))
@@ -886,6 +900,9 @@ def run(chk, args):
                         "a memory read returns the requested bytes (packetisation of reads is property C07); retransmission is C06: "
                         "a chip `responds` iff it answers within the controller's n_tries = 5 transmissions",
                         "software names / version strings / application names are ASCII",
+                        "sver payloads are generated with 0, 1 and several NUL bytes after the last string in both encodings (SC&MP / "
+                        "SARK are believed to send each string with exactly one terminating NUL; the other forms are covered because "
+                        "the property quantifies over version strings in both encodings, not over one firmware build)",
                         "histories (one controller, successive machine states): the sver reply -- hence the SCP buffer size "
                         "the controller has learnt -- the boot chip and the P2P table stay the same across the states",
                         "IOBUF chains are acyclic (the code would loop on a cyclic chain: theorem C14_iobuf_cycle_diverges)",
@@ -928,8 +945,8 @@ def run(chk, args):
                             "none / east / garbage, chips silent / refusing / flaky (answering on try 2..5 or never), core counts "
                             "0..18 with a common value, core-state patterns fresh / shared-busy / shared+own / random / all busy / "
                             "all idle, link patterns all / periphery / random / none, free-memory figures with a common value and "
-                            "32-bit extremes, router blocks 0..2047, both sver encodings, 1-3 probed cores with IOBUF chains of 0-5 "
-                            "blocks; every 8th machine malformed (correspondence only); every 6th case a history: ONE controller probing 2-3 "
+                            "32-bit extremes, router blocks 0..2047, both sver encodings (0 / 1 / several trailing NULs), 1-3 probed cores with IOBUF chains of 0-5 "
+                            "blocks (text, random binary, valid bytes containing and ending in NUL bytes in first / middle / last blocks); every 8th machine malformed (correspondence only); every 6th case a history: ONE controller probing 2-3 "
                             "successive states of the same machine (different vcpu_base, iobuf_size, vcpu blocks, IOBUF chains, core counts, "
                             "states, links, memory, answering chips), each probe judged against the state current at that call; thorough tier adds exhaustive sweeps (every table height "
                             "1..255, every link mask, every core count 0..31, every AppState in every core position, every router "
